@@ -249,7 +249,7 @@ func genC12(env *core.Env, emit func(core.Case)) {
 	// resolver-driven part: a DoH server that serves a chosen body
 	var mu sync.Mutex
 	var body []byte
-	srv := httptest.NewServer(http.HandlerFunc(func(w http.ResponseWriter, req *http.Request) {
+	srv := httptest.NewUnstartedServer(http.HandlerFunc(func(w http.ResponseWriter, req *http.Request) {
 		mu.Lock()
 		b := body
 		mu.Unlock()
@@ -257,6 +257,8 @@ func genC12(env *core.Env, emit func(core.Case)) {
 		w.Header().Set("content-length", strconv.Itoa(len(b)))
 		w.Write(b)
 	}))
+	srv.Config.SetKeepAlivesEnabled(false)
+	srv.Start()
 	defer srv.Close()
 	resolver, err := ech.NewResolver(srv.URL + "/dns-query")
 	if err != nil {
